@@ -171,6 +171,21 @@ def counters(rep, lib):
             r.ok(key, "per-file counter +%d, run-wide counter +%d" % want, b.where(h))
         if label == "value,Continue":
             wantargs = (s["val"], ("i", 1111), ("i", 2222), ("i", 100), ("i", 200))
+            # the four position / ordinal values may also arrive as one InputContext built by the caller: then each
+            # field, by name, must hold the value of that meaning
+            nwb = lib.bodies.get("processor::Context::new_with_input")
+            ic = lib.adts.get("processor::InputContext")
+            if len(args_seen) == 1 and nwb is not None and ic is not None:
+                flat = []
+                for ai, v in enumerate(args_seen[0]):
+                    if ai + 1 <= nwb.arg_count and nwb.local_ty(ai + 1) == "processor::InputContext" \
+                            and v is not None and v[0] == "adt":
+                        byname = dict(zip([f["name"] for f in ic["variants"][0]["fields"]], v[2]))
+                        flat.extend([byname.get("start_location"), byname.get("end_location"),
+                                     byname.get("file_index"), byname.get("index")])
+                    else:
+                        flat.append(v)
+                args_seen[0] = tuple(flat[:5])
             if len(args_seen) == 1 and args_seen[0] == wantargs:
                 r.ok("new_with_input/args", "(value, position before the parse, position after it, per-file counter, "
                      "run-wide counter)", nw[0].where())
@@ -191,11 +206,17 @@ def constructor(rep, lib):
         return
     pr = Prov(b, LOOKX + ("Rc::<T>::new",))
     aggs = [rv for bb, idx, place, rv, _ in b.assignments() if rv["k"] == "agg" and rv.get("adt") == "processor::InputContext"]
-    if len(aggs) != 1:
+    whole = [l for l in range(1, b.arg_count + 1) if b.local_ty(l) == "processor::InputContext"]
+    if not aggs and len(whole) == 1:
+        # the caller builds the InputContext and hands it over whole (its fields are judged where it is built:
+        # C17-COUNTERS observes them by name at the call in read_input)
+        for name in ("start_location", "end_location", "file_index", "index"):
+            r.ok("InputContext." + name, "built by the caller, passed whole as parameter %d" % whole[0], b.where())
+    elif len(aggs) != 1:
         r.missing("the InputContext aggregate")
         return
     want = {"start_location": 2, "end_location": 3, "file_index": 4, "index": 5}
-    for name, o in zip(aggs[0]["fields"], aggs[0]["ops"]):
+    for name, o in (zip(aggs[0]["fields"], aggs[0]["ops"]) if aggs else ()):
         at = {a for a in pr.origins(o) if a[0] in ("arg", "call", "const", "local")}
         if name in want and at == {("arg", want[name], ())}:
             r.ok("InputContext." + name, "parameter %d" % want[name], b.where())
@@ -209,6 +230,7 @@ def constructor(rep, lib):
         o = dict(zip(cagg[0]["fields"], cagg[0]["ops"])).get("input_context")
         ic_sites = {(bb, idx) for bb, idx, place, rv, _ in b.assignments()
                     if rv["k"] == "agg" and rv.get("adt") == "processor::InputContext"}
+        ic_params = set(whole) if not aggs else set()
         if o is not None:
             # the InputContext aggregate reaches this field through Some(..), Rc::new(..), Option::map(Rc::new) ...
             pr2 = Prov(b, LOOKX + ("Rc::<T>::new", "Option::<T>::map"))
@@ -231,7 +253,10 @@ def constructor(rep, lib):
                     if a[0] == "call" and (b.call_at[a[1]].name or "").startswith(("std::rc::Rc::<T>::new", "core::ops::function")):
                         continue
                     if a[0] == "arg":
-                        other = True
+                        if a[1] in ic_params and not a[2]:
+                            hit = True
+                        else:
+                            other = True
             okc = hit and not other
     if okc:
         r.ok("Context.input_context", "Some(Rc::new(input_context))", b.where())
